@@ -631,7 +631,7 @@ LEVEL_TEXT = ("Mixed. Exhaustive on the real code: exp/log tables vs carry-less 
               "Deductive (symbolic, z3): Share.__init__ ranges, ShareSet.__init__ refuses mixed/duplicate shares, recover() refuses fewer than threshold shares, one generic "
               "RS1024 step equals the spec step (bit-vectors), spec step GF(2)-linear. Bounded only: Share.parse/mnemonic vs the SLIP-39 packing, encrypt/decrypt vs the "
               "spec Feistel network and mutual inverse, generate/recover for all 136 (k,n), mixing, corruption by sampled 2-/3-word substitutions, official vectors. "
-              "Not 'proof': strings and table look-ups are outside the symbolic engine, and three findings keep clauses failing "
-              "(1-of-n split returns one share; Share.parse accepts over-long padding; 160/240-bit shares do not round-trip).")
+              "Not 'proof': strings and table look-ups are outside the symbolic engine.  "
+              "The defects these checks found on the pinned tree are repaired by fix: commits in /repo (one `fixed:` line each in /verif/KNOWN_FINDINGS.jsonl).")
 LEVEL_NOTE = ("trusted: pyvc translation (A-ENGINE), spec functions (A-SPEC), CPython builtin contracts (A-BUILTIN), HMAC/PBKDF2 uninterpreted or CPython's; "
               "induction over the RS1024 loop and byte-wise linearity of interpolate are manual steps; termination not verified")
